@@ -116,8 +116,10 @@ int asm_assemble_str(assemblyline_t al, const char *assembly_str) {
   // check minimum buffer length requirement
   check_buffer_len(al->buffer_len);
   // assemble string containing x64 assembly code
-  al->offset = assemble_all(al, assembly_str, NULL);
-  FAIL_IF(al->offset == ASM_ERROR);
+  int new_offset = assemble_all(al, assembly_str, NULL);
+  // a failed call keeps the previous offset so the instance stays usable
+  FAIL_IF(new_offset == ASM_ERROR);
+  al->offset = new_offset;
   al->finalized = true;
   return EXIT_SUCCESS;
 }
@@ -135,8 +137,10 @@ int asm_assemble_string_counting_chunks(assemblyline_t al, char *str,
   al->chunk_size = chunk_size;
   check_buffer_len(al->buffer_len);
   // assemble string containing x64 assembly code
-  al->offset = assemble_all(al, str, dest);
-  FAIL_IF(al->offset == ASM_ERROR);
+  int new_offset = assemble_all(al, str, dest);
+  // a failed call keeps the previous offset so the instance stays usable
+  FAIL_IF(new_offset == ASM_ERROR);
+  al->offset = new_offset;
   al->finalized = true;
   return EXIT_SUCCESS;
 }
